@@ -44,7 +44,7 @@ KS = ('crew', 'doing', 'todo')
 PRIO = {None: 'none'}
 for _p in dawgie.tools.submit.Priority:
     PRIO[_p] = {'now': 'now', 'crew_idle': 'crew', 'doing_empty': 'doing', 'todo_empty': 'todo'}[_p.value]
-PVAL = {'now': 'now', 'crew': 'crew_idle', 'doing': 'doing_empty', 'todo': 'todo_empty'}
+PVAL = {'now': 'now', 'crew': 'crew_idle', 'doing': 'doing_empty', 'todo': 'todo_empty', 'junk': 'whenever'}
 
 
 class Poller:
@@ -215,6 +215,7 @@ class World:
                 try:
                     r = fn(*args, **kwds)
                 except Exception:  # pylint: disable=broad-except
+                    self.rejected = True  # the step's own trigger was refused (swallowed by the deferred)
                     d.errback(twisted.python.failure.Failure())
                 else:
                     d.callback(r)
@@ -463,6 +464,14 @@ def run_job(job):
                     if not_allowed(e['name'], w.fsm.state, w.fsm.transitioning.name):
                         w.src = 'raw'
                         getattr(w.fsm, e['name'])()
+                    else:
+                        ok = False
+                elif ev == 'RawRun':
+                    # running_trigger from another holder of the FSM while this state's own step is outstanding
+                    names = [n for n, *_ in w.pending]
+                    if (w.fsm.state == 'contemplation' and 'navel_gaze' in names) or (w.fsm.state == 'archiving' and 'archive' in names):
+                        w.src = 'raw'
+                        w.fsm.running_trigger()
                     else:
                         ok = False
                 else:
